@@ -1845,3 +1845,401 @@ Example dup_dict_example :
                  EKV (EConst (AInt 3)) (EConst (AInt 5)); EKV (EConst (AStr 2)) (EConst ANone);
                  EKV (EConst (ABool true)) (ECall 0 [])]).
 Proof. reflexivity. Qed.
+
+(* ------------------------------------------------------------------------------------------- *)
+(* fixes.simplify_dict_unpacks *)
+
+Fixpoint wfd (d : list (val * val)) : Prop :=
+  match d with
+  | [] => True
+  | (k, _) :: tl => dict_has tl k = false /\ wfd tl
+  end.
+
+Lemma dict_has_congr : forall d a b, key_eqb a b = true -> dict_has d a = dict_has d b.
+Proof.
+  induction d as [|[k0 v0] d IH]; intros a b H; [reflexivity|]. cbn [dict_has existsb fst].
+  fold (dict_has d a). fold (dict_has d b). rewrite (IH a b H), (key_eqb_congr_r a b k0 H). reflexivity.
+Qed.
+
+Lemma dict_has_set_other : forall d k v k0, key_eqb k k0 = false ->
+  dict_has (dict_set d k v) k0 = dict_has d k0.
+Proof.
+  induction d as [|[k1 v1] d IH]; intros k v k0 H; cbn [dict_set dict_has existsb fst].
+  - rewrite H. reflexivity.
+  - destruct (key_eqb k1 k) eqn:E; cbn [dict_has existsb fst]; [reflexivity|].
+    fold (dict_has (dict_set d k v) k0). fold (dict_has d k0). rewrite IH by assumption. reflexivity.
+Qed.
+
+Lemma wfd_set : forall d k v, wfd d -> wfd (dict_set d k v).
+Proof.
+  induction d as [|[k1 v1] d IH]; intros k v H; cbn [dict_set].
+  - cbn. split; [reflexivity | exact I].
+  - destruct H as [H1 H2]. destruct (key_eqb k1 k) eqn:E; cbn [wfd].
+    + split; assumption.
+    + split; [|apply IH; assumption]. rewrite dict_has_set_other; [assumption|].
+      rewrite key_eqb_sym. assumption.
+Qed.
+
+Lemma wfd_update : forall ps d, wfd d -> wfd (dict_update d ps).
+Proof.
+  induction ps as [|[k v] ps IH]; intros d H; [assumption|]. unfold dict_update in *. cbn. apply IH, wfd_set, H.
+Qed.
+
+(* a write to a present key commutes with writes to other keys *)
+Lemma update_comm : forall tl E k v, dict_has E k = true ->
+  forallb (fun kv => negb (key_eqb k (fst kv))) tl = true ->
+  dict_set (dict_update E tl) k v = dict_update (dict_set E k v) tl.
+Proof.
+  induction tl as [|[k1 v1] tl IH]; intros E k v Hh Hne; [reflexivity|].
+  cbn [forallb fst] in Hne. apply andb_true_iff in Hne as [H1 Hne]. apply negb_true_iff in H1.
+  unfold dict_update in *. cbn [fold_left fst snd].
+  rewrite IH by (try apply dict_has_mono; assumption).
+  rewrite (dict_set_comm E k v k1 v1) by assumption. reflexivity.
+Qed.
+
+Lemma wfd_tail_ne : forall tl k0, dict_has tl k0 = false ->
+  forallb (fun kv => negb (key_eqb k0 (fst kv))) tl = true.
+Proof.
+  induction tl as [|[k1 v1] tl IH]; intros k0 H; [reflexivity|]. cbn [dict_has existsb fst] in H.
+  apply orb_false_iff in H as [H1 H2]. cbn [forallb fst]. rewrite key_eqb_sym, H1. cbn. apply IH. exact H2.
+Qed.
+
+(* merging a well-formed dict after one more write = merging, then writing *)
+Lemma update_set : forall acc d k v, wfd acc ->
+  dict_update d (dict_set acc k v) = dict_set (dict_update d acc) k v.
+Proof.
+  induction acc as [|[k0 v0] acc IH]; intros d k v Hwf; [reflexivity|].
+  destruct Hwf as [Hno Hwf]. cbn [dict_set].
+  destruct (key_eqb k0 k) eqn:E.
+  - unfold dict_update. cbn [fold_left fst snd]. fold (dict_update (dict_set d k0 v) acc).
+    fold (dict_update (dict_set d k0 v0) acc).
+    rewrite (update_comm acc (dict_set d k0 v0) k v).
+    + rewrite <- (dict_set_same_slot (dict_set d k0 v0) k0 k v E) by (rewrite <- (dict_has_congr _ k0 k E); apply dict_has_set).
+      rewrite dict_set_overwrite by apply key_eqb_refl. reflexivity.
+    + rewrite <- (dict_has_congr _ k0 k E). apply dict_has_set.
+    + rewrite (dict_has_congr acc k0 k E) in Hno. apply wfd_tail_ne. assumption.
+  - unfold dict_update. cbn [fold_left fst snd]. apply IH. assumption.
+Qed.
+
+Lemma update_update : forall d'' d d0, wfd d0 ->
+  dict_update d (dict_update d0 d'') = dict_update (dict_update d d0) d''.
+Proof.
+  induction d'' as [|[k v] d'' IH]; intros d d0 Hwf; [reflexivity|].
+  unfold dict_update at 2 4. cbn [fold_left fst snd].
+  fold (dict_update (dict_set d0 k v) d''). fold (dict_update (dict_set (dict_update d d0) k v) d'').
+  rewrite IH by (apply wfd_set; assumption). rewrite update_set by assumption. reflexivity.
+Qed.
+
+(* building a display onto d  =  building it onto d0 and merging the result into d *)
+Lemma build_merge : forall w en inner d d0 tr dA tr1, wfd d0 ->
+  eval_items (eval w) en inner d0 tr = Some (dA, tr1) ->
+  eval_items (eval w) en inner (dict_update d d0) tr = Some (dict_update d dA, tr1).
+Proof.
+  intros w en. induction inner as [|it inner IH]; intros d d0 tr dA tr1 Hwf Hev.
+  - injection Hev as <- <-. reflexivity.
+  - destruct it; try discriminate; cbn [eval_items] in *.
+    + destruct (eval w it1 en tr) as [[kv tr2]|]; [|discriminate].
+      destruct (eval w it2 en tr2) as [[vv tr3]|]; [|discriminate].
+      destruct (hashable kv); [|discriminate]. rewrite <- update_set by assumption.
+      apply IH; [apply wfd_set; assumption | assumption].
+    + destruct (eval w it en tr) as [[[] tr2]|]; try discriminate.
+      rewrite <- update_update by assumption. apply IH; [apply wfd_update; assumption | assumption].
+Qed.
+
+Lemma eval_items_app : forall w en l1 l2 d tr,
+  eval_items (eval w) en (l1 ++ l2) d tr =
+  match eval_items (eval w) en l1 d tr with
+  | Some (d1, tr1) => eval_items (eval w) en l2 d1 tr1
+  | None => None
+  end.
+Proof.
+  intros w en. induction l1 as [|it l1 IH]; intros l2 d tr; [reflexivity|].
+  destruct it; try reflexivity; cbn [app eval_items].
+  - destruct (eval w it1 en tr) as [[kv tr2]|]; [|reflexivity].
+    destruct (eval w it2 en tr2) as [[vv tr3]|]; [|reflexivity]. destruct (hashable kv); [apply IH | reflexivity].
+  - destruct (eval w it en tr) as [[[] tr2]|]; try reflexivity. apply IH.
+Qed.
+
+Lemma dict_unpacks_items : forall w en items d tr r,
+  eval_items (eval w) en items d tr = Some r ->
+  eval_items (eval w) en (fst (unpack_items items)) d tr = Some r.
+Proof.
+  intros w en. induction items as [|it items IH]; intros d tr r Hev; [exact Hev|].
+  cbn [unpack_items]. destruct (unpack_items items) as [r0 ch] eqn:Eu. cbn [fst] in IH.
+  assert (Hkeep : eval_items (eval w) en (it :: r0) d tr = Some r).
+  { eapply items_cons_congr; [|exact Hev]. intros d' tr' H. apply IH. assumption. }
+  destruct it; try exact Hkeep. destruct it; try exact Hkeep. cbn [fst].
+  cbn [eval_items] in Hev. rewrite eval_EDict in Hev.
+  destruct (eval_items (eval w) en items0 [] tr) as [[d' tr1]|] eqn:Ei; [|discriminate].
+  rewrite eval_items_app. pose proof (build_merge w en items0 d [] tr d' tr1 I Ei) as Hb.
+  change (dict_update d []) with d in Hb. rewrite Hb. apply IH. exact Hev.
+Qed.
+
+(* {**{k: v, ...}, ...} -> {k: v, ..., ...} *)
+Theorem dict_unpacks_sound : forall w e e',
+  rw_dict_unpacks e = Some e' ->
+  forall en tr r, eval w e en tr = Some r -> eval w e' en tr = Some r.
+Proof.
+  intros w e e' Hr en tr r Hev. destruct e; try discriminate. cbn [rw_dict_unpacks] in Hr.
+  destruct (unpack_items items) as [r0 ch] eqn:Eu. destruct ch; [|discriminate]. injection Hr as <-.
+  rewrite eval_EDict in *. destruct (eval_items (eval w) en items [] tr) as [[d tr1]|] eqn:E; [|discriminate].
+  pose proof (dict_unpacks_items _ _ _ _ _ _ E) as H. rewrite Eu in H. cbn [fst] in H. rewrite H. exact Hev.
+Qed.
+
+(* ------------------------------------------------------------------------------------------- *)
+(* fixes.simplify_collection_unpacks (repaired) *)
+
+Lemma eval_elts_app : forall w en l1 l2 tr,
+  eval_elts (eval w) en (l1 ++ l2) tr =
+  match eval_elts (eval w) en l1 tr with
+  | Some (v1, tr1) => match eval_elts (eval w) en l2 tr1 with
+                      | Some (v2, tr2) => Some (v1 ++ v2, tr2)
+                      | None => None
+                      end
+  | None => None
+  end.
+Proof.
+  intros w en. induction l1 as [|a l1 IH]; intros l2 tr.
+  - cbn. destruct (eval_elts (eval w) en l2 tr) as [[v2 tr2]|]; reflexivity.
+  - assert (Hgen : forall (f : val -> list val),
+      match eval w a en tr with
+      | Some (v, tr1) => match eval_elts (eval w) en (l1 ++ l2) tr1 with
+                         | Some (rest, tr2) => Some (f v ++ rest, tr2) | None => None end
+      | None => None end =
+      match (match eval w a en tr with
+             | Some (v, tr1) => match eval_elts (eval w) en l1 tr1 with
+                                | Some (rest, tr2) => Some (f v ++ rest, tr2) | None => None end
+             | None => None end) with
+      | Some (v1, tr1) => match eval_elts (eval w) en l2 tr1 with
+                          | Some (v2, tr2) => Some (v1 ++ v2, tr2) | None => None end
+      | None => None end).
+    { intros f. destruct (eval w a en tr) as [[v tr1]|]; [|reflexivity]. rewrite IH.
+      destruct (eval_elts (eval w) en l1 tr1) as [[r1 t1]|]; [|reflexivity].
+      destruct (eval_elts (eval w) en l2 t1) as [[r2 t2]|]; [|reflexivity]. rewrite app_assoc. reflexivity. }
+    destruct a; try exact (Hgen (fun v => [v])).
+    cbn [app eval_elts]. destruct (eval w a en tr) as [[v tr1]|]; [|reflexivity].
+    destruct (items_of v) as [vs|]; [|reflexivity]. rewrite IH.
+    destruct (eval_elts (eval w) en l1 tr1) as [[r1 t1]|]; [|reflexivity].
+    destruct (eval_elts (eval w) en l2 t1) as [[r2 t2]|]; [|reflexivity]. rewrite app_assoc. reflexivity.
+Qed.
+
+Lemma key_in_fold : forall acc s y, key_in y acc = true -> key_in y (fold_left set_add acc s) = true.
+Proof.
+  induction acc as [|a acc IH]; intros s y H; [discriminate|]. cbn [fold_left].
+  unfold key_in in H. cbn [existsb] in H. apply orb_true_iff in H as [H|H].
+  - apply fold_set_add_mono. rewrite (key_in_congr y a _ H). apply set_add_in.
+  - apply IH. exact H.
+Qed.
+
+Lemma fold_set_add_step : forall acc x s,
+  fold_left set_add (set_add acc x) s = set_add (fold_left set_add acc s) x.
+Proof.
+  intros acc x s.
+  assert (H : set_add acc x = if key_in x acc then acc else acc ++ [x]) by reflexivity.
+  rewrite H. destruct (key_in x acc) eqn:E.
+  - symmetry. apply set_add_absorb. apply key_in_fold. exact E.
+  - rewrite fold_left_app. reflexivity.
+Qed.
+
+(* adding the members of a set built from l is the same as adding the items of l *)
+Lemma set_absorb : forall l acc s,
+  fold_left set_add (fold_left set_add l acc) s = fold_left set_add l (fold_left set_add acc s).
+Proof.
+  induction l as [|x l IH]; intros acc s; [reflexivity|]. cbn [fold_left].
+  rewrite IH, fold_set_add_step. reflexivity.
+Qed.
+
+Lemma keys_of_set : forall d k v, map fst (dict_set d k v) = set_add (map fst d) k.
+Proof.
+  induction d as [|[k0 v0] d IH]; intros k v; [reflexivity|]. cbn [dict_set map fst].
+  unfold set_add. cbn [existsb]. rewrite (key_eqb_sym k k0). destruct (key_eqb k0 k) eqn:E; cbn [orb map fst].
+  - reflexivity.
+  - rewrite IH. unfold set_add. destruct (existsb (key_eqb k) (map fst d)); reflexivity.
+Qed.
+
+(* the relation between the values of a display and of the display with unpacked literals *)
+Definition unpack_rel (exact : bool) (r r' : option (list val * trace)) : Prop :=
+  match r with
+  | Some (vs, t1) =>
+      match r' with
+      | Some (vs', t2) =>
+          t1 = t2 /\ (if exact then vs' = vs
+                      else (forallb hashable vs = true -> forallb hashable vs' = true) /\
+                           forall s, fold_left set_add vs' s = fold_left set_add vs s)
+      | None => False
+      end
+  | None => True
+  end.
+
+Lemma eval_elts_nostar_cons : forall w en a tl tr, is_star a = false ->
+  eval_elts (eval w) en (a :: tl) tr =
+  match eval w a en tr with
+  | Some (v, tr1) => match eval_elts (eval w) en tl tr1 with
+                     | Some (rest, tr2) => Some (v :: rest, tr2)
+                     | None => None
+                     end
+  | None => None
+  end.
+Proof. intros w en a tl tr H. destruct a; try reflexivity; discriminate. Qed.
+
+Lemma elts_len_nostar : forall w en elts tr vs tr1,
+  forallb (fun x => negb (is_star x)) elts = true ->
+  eval_elts (eval w) en elts tr = Some (vs, tr1) -> length vs = length elts.
+Proof.
+  intros w en. induction elts as [|a elts IH]; intros tr vs tr1 Hn Hev.
+  - injection Hev as <- _. reflexivity.
+  - cbn [forallb] in Hn. apply andb_true_iff in Hn as [Ha Hn]. apply negb_true_iff in Ha.
+    rewrite eval_elts_nostar_cons in Hev by assumption.
+    destruct (eval w a en tr) as [[v t1]|]; [|discriminate].
+    destruct (eval_elts (eval w) en elts t1) as [[rest t2]|] eqn:E; [|discriminate].
+    injection Hev as <- _. cbn [length]. f_equal. eapply IH; eassumption.
+Qed.
+
+Lemma small_set : forall vs, (length vs <= 1)%nat -> fold_left set_add vs [] = vs.
+Proof. intros [|v [|? ?]] H; try reflexivity. cbn in H. lia. Qed.
+
+(* a dict display whose values are effect-free: its keys, evaluated alone *)
+Lemma dict_keys_eval : forall w en items d tr dA tr1,
+  forallb kv_ok items = true ->
+  eval_items (eval w) en items d tr = Some (dA, tr1) ->
+  exists kvs, eval_elts (eval w) en (map kv_key items) tr = Some (kvs, tr1) /\
+              forallb hashable kvs = true /\ length kvs = length items /\
+              map fst dA = fold_left set_add kvs (map fst d).
+Proof.
+  intros w en. induction items as [|it items IH]; intros d tr dA tr1 Hok Hev.
+  - injection Hev as <- <-. exists []. repeat split; reflexivity.
+  - cbn [forallb] in Hok. apply andb_true_iff in Hok as [Hit Hok]. destruct it; try discriminate.
+    cbn [kv_ok] in Hit. cbn [eval_items] in Hev.
+    destruct (eval w it1 en tr) as [[kv tr2]|] eqn:Ek; [|discriminate].
+    rewrite (simple_eval_eq _ _ _ _ Hit) in Hev. destruct (atomval it2 en) as [vv|]; [|discriminate].
+    destruct (hashable kv) eqn:Hh; [|discriminate].
+    destruct (IH _ _ _ _ Hok Hev) as (kvs & He & Hhs & Hlen & Hm).
+    exists (kv :: kvs). cbn [map kv_key].
+    assert (Hel : eval_elts (eval w) en (it1 :: map kv_key items) tr = Some (kv :: kvs, tr1)).
+    { destruct it1; try (cbn [eval_elts]; rewrite Ek, He; reflexivity). cbn in Ek. discriminate. }
+    repeat split; [exact Hel | cbn; rewrite Hh; exact Hhs | cbn; rewrite Hlen; reflexivity |].
+    rewrite Hm, keys_of_set. reflexivity.
+Qed.
+
+(* splicing the values vs of a literal where the display saw `its` *)
+Lemma splice_rel : forall (b : bool) (rl rr : option (list val * trace)) vs its,
+  unpack_rel b rl rr ->
+  (if b then its = vs else forallb hashable vs = true /\ its = fold_left set_add vs []) ->
+  unpack_rel b
+    (match rl with Some (rest, tr2) => Some (its ++ rest, tr2) | None => None end)
+    (match rr with Some (v2, tr2) => Some (vs ++ v2, tr2) | None => None end).
+Proof.
+  intros b rl rr vs its IH Hits. unfold unpack_rel in *.
+  destruct rl as [[rest t1]|]; [|exact I]. destruct rr as [[rest' t2]|]; [|contradiction].
+  destruct IH as [-> IH]. split; [reflexivity|]. destruct b.
+  - subst. reflexivity.
+  - destruct Hits as [Hhv ->]. destruct IH as [Hh Hf]. split.
+    + rewrite !forallb_app. intros H. apply andb_true_iff in H as [_ H2]. rewrite Hhv, (Hh H2). reflexivity.
+    + intros s. rewrite !fold_left_app, Hf. f_equal. symmetry. rewrite set_absorb. reflexivity.
+Qed.
+
+(* splicing the same values (a list or tuple literal) *)
+Lemma splice_same : forall (b : bool) (rl rr : option (list val * trace)) vs,
+  unpack_rel b rl rr ->
+  unpack_rel b
+    (match rl with Some (rest, tr2) => Some (vs ++ rest, tr2) | None => None end)
+    (match rr with Some (v2, tr2) => Some (vs ++ v2, tr2) | None => None end).
+Proof.
+  intros b rl rr vs IH. unfold unpack_rel in *.
+  destruct rl as [[rest t1]|]; [|exact I]. destruct rr as [[rest' t2]|]; [|contradiction].
+  destruct IH as [-> IH]. split; [reflexivity|]. destruct b.
+  - rewrite IH. reflexivity.
+  - destruct IH as [Hh Hf]. split.
+    + rewrite !forallb_app. intros H. apply andb_true_iff in H as [H1 H2]. rewrite H1, (Hh H2). reflexivity.
+    + intros s. rewrite !fold_left_app. apply Hf.
+Qed.
+
+Lemma unpack_elts_rel : forall w en k l tr,
+  unpack_rel (negb (is_kset k)) (eval_elts (eval w) en l tr)
+             (eval_elts (eval w) en (fst (unpack_elts k l)) tr).
+Proof.
+  intros w en k. induction l as [|e l IH]; intros tr.
+  - cbn. destruct (is_kset k); cbn; repeat split; auto.
+  - cbn [unpack_elts]. destruct (unpack_elts k l) as [r ch] eqn:Eu. cbn [fst] in IH.
+    assert (Hgen : forall a (f : val -> option (list val)),
+         unpack_rel (negb (is_kset k))
+           (match eval w a en tr with
+            | Some (v, tr1) => match f v with
+                               | Some vs => match eval_elts (eval w) en l tr1 with
+                                            | Some (rest, tr2) => Some (vs ++ rest, tr2) | None => None end
+                               | None => None end
+            | None => None end)
+           (match eval w a en tr with
+            | Some (v, tr1) => match f v with
+                               | Some vs => match eval_elts (eval w) en r tr1 with
+                                            | Some (rest, tr2) => Some (vs ++ rest, tr2) | None => None end
+                               | None => None end
+            | None => None end)).
+    { intros a f. destruct (eval w a en tr) as [[v tr1]|]; [|exact I]. destruct (f v) as [vs|]; [|exact I].
+      apply splice_same. apply IH. }
+    assert (Hkeep : unpack_rel (negb (is_kset k)) (eval_elts (eval w) en (e :: l) tr)
+                               (eval_elts (eval w) en (e :: r) tr)).
+    { destruct e;
+        try (match goal with |- unpack_rel _ (eval_elts _ _ (?x :: _) _) _ => exact (Hgen x (fun v => Some [v])) end).
+      match goal with |- unpack_rel _ (eval_elts _ _ (EStar ?x :: _) _) _ => exact (Hgen x items_of) end. }
+    destruct e; try exact Hkeep. destruct e; try exact Hkeep.
+    + (* a starred list / tuple / set display *)
+      assert (Hsplice : (k0 = KList \/ k0 = KTuple \/
+                         (k0 = KSet /\ (is_kset k = true \/
+                            ((length elts <= 1)%nat /\ forallb (fun x => negb (is_star x)) elts = true)))) ->
+                unpack_rel (negb (is_kset k)) (eval_elts (eval w) en (EStar (ESeq k0 elts) :: l) tr)
+                           (eval_elts (eval w) en (elts ++ r) tr)).
+      { intros Hk. cbn [eval_elts]. rewrite eval_ESeq, eval_elts_app.
+        destruct (eval_elts (eval w) en elts tr) as [[vs tr1]|] eqn:Ee; [|destruct k0; exact I].
+        destruct Hk as [-> | [-> | [-> Hk]]].
+        - cbn [items_of]. apply splice_same. apply IH.
+        - cbn [items_of]. apply splice_same. apply IH.
+        - unfold mkset. destruct (forallb hashable vs) eqn:Hhv; [|exact I]. cbn [items_of].
+          apply splice_rel; [apply IH|]. destruct Hk as [Ks | [Hlen Hns]].
+          + rewrite Ks. cbn [negb]. split; [assumption | reflexivity].
+          + assert (Hone : fold_left set_add vs [] = vs).
+            { apply small_set. rewrite (elts_len_nostar _ _ _ _ _ _ Hns Ee). exact Hlen. }
+            rewrite Hone. destruct (negb (is_kset k)); [reflexivity | split; [assumption | reflexivity]]. }
+      destruct k0.
+      * apply Hsplice. tauto.
+      * apply Hsplice. tauto.
+      * destruct (is_kset k || ((length elts <=? 1)%nat && forallb (fun x => negb (is_star x)) elts)) eqn:Ec;
+          [|exact Hkeep]. apply Hsplice. right. right. split; [reflexivity|].
+        apply orb_true_iff in Ec as [Ec|Ec]; [left; assumption|]. right.
+        apply andb_true_iff in Ec as [E1 E2]. apply Nat.leb_le in E1. split; assumption.
+    + (* a starred dict display *)
+      destruct ((is_kset k || (length items <=? 1)%nat) && forallb kv_ok items) eqn:Ec; [|exact Hkeep].
+      apply andb_true_iff in Ec as [Ec Hok]. cbn [fst eval_elts]. rewrite eval_EDict, eval_elts_app.
+      destruct (eval_items (eval w) en items [] tr) as [[dA tr1]|] eqn:Ei; [|exact I].
+      destruct (dict_keys_eval _ _ _ _ _ _ _ Hok Ei) as (kvs & He & Hhs & Hlen & Hm). rewrite He.
+      cbn [items_of]. apply splice_rel; [apply IH|]. rewrite Hm. cbn [map].
+      apply orb_true_iff in Ec as [Ks | Hl].
+      * rewrite Ks. cbn [negb]. split; [assumption | reflexivity].
+      * apply Nat.leb_le in Hl. rewrite small_set by (rewrite Hlen; exact Hl).
+        destruct (negb (is_kset k)); [reflexivity | split; [assumption | reflexivity]].
+Qed.
+
+(* a starred list / tuple / set / dict literal inside a display is replaced by its elements (keys):
+   a normally terminating evaluation keeps its value (same list / tuple; same set, first element wins)
+   and its call trace *)
+Theorem unpacks_sound : forall w e e',
+  rw_unpacks e = Some e' ->
+  forall en tr r, eval w e en tr = Some r -> eval w e' en tr = Some r.
+Proof.
+  intros w e e' Hr en tr r Hev. destruct e; try discriminate. cbn [rw_unpacks] in Hr.
+  destruct (unpack_elts k elts) as [r0 ch] eqn:Eu. destruct ch; [|discriminate].
+  pose proof (unpack_elts_rel w en k elts tr) as H. rewrite Eu in H. cbn [fst] in H.
+  rewrite eval_ESeq in Hev. unfold unpack_rel in H.
+  destruct (eval_elts (eval w) en elts tr) as [[vs t1]|]; [|discriminate].
+  destruct (eval_elts (eval w) en r0 tr) as [[vs' t2]|] eqn:E0; [|contradiction].
+  destruct H as [-> H].
+  assert (Hseq : eval w (ESeq k r0) en tr = Some r).
+  { rewrite eval_ESeq, E0. destruct k; cbn [is_kset negb] in H.
+    - subst. exact Hev.
+    - subst. exact Hev.
+    - destruct H as [Hh Hf]. unfold mkset in *. destruct (forallb hashable vs) eqn:Ehv; [|discriminate].
+      rewrite (Hh eq_refl), Hf. exact Hev. }
+  destruct k; try (injection Hr as <-; exact Hseq).
+  destruct r0; [|injection Hr as <-; exact Hseq].
+  injection Hr as <-. rewrite <- Hseq. reflexivity.
+Qed.
